@@ -179,12 +179,26 @@ def run(tier):
             cases.append(cmds)
             meta.append(("badpath", why, None, variant, badpath))
     # binary output at various offsets
-    for off in [0, 1, 2, 19, 4095, 4096, 4097, 6000, 20000] + ([rnd.randrange(0, 30000) for _ in range(40)] if full else []):
-        out = os.path.join(wd, "out%d.bin" % off)
+    for bi, off in enumerate([0, 1, 2, 19, 4095, 4096, 4097, 6000, 20000, 0, 7, 4096, 65535, 65536, 65537, 1048576 + 5] + ([rnd.randrange(0, 30000) for _ in range(40)] if full else [])):
+        out = os.path.join(wd, "out%d-%d.bin" % (bi, off))
+        if bi >= 9:
+            # the target exists already - longer or shorter than the code, or as a symlink to such a file: it must end up holding
+            # exactly [0, offset)
+            with open(out + ".real" if bi % 3 == 0 else out, "wb") as f:
+                f.write(b"\xee" * rnd.choice([1, off + 1, off + 4096, 2 * off + 10, max(0, off - 1)]))
+            if bi % 3 == 0:
+                os.symlink(out + ".real", out)
         prog = "\n".join(["mov rax, 0x1122334455667788"] * (off // 10) + ["nop"] * (off % 10))
         cmds = ["new 0 int"] + (["asm 0 %s" % common.hx(prog)] if off else []) + ["sumoff 0", "bin 0 %s" % out, "dump 0 0 %d" % off]
         cases.append(cmds)
         meta.append(("bin", off, None, "bin", out))
+    # binary output twice to the same path: after more code, and after the offset went BACK (the second file is shorter)
+    for bi, (o1, o2) in enumerate([(300, 600), (600, 300), (5000, 10), (10, 5000), (70000, 4096), (4096, 0)]):
+        out = os.path.join(wd, "twice%d.bin" % bi)
+        prog = "\n".join(["mov rax, 0x1122334455667788"] * (max(o1, o2) // 10) + ["nop"] * (max(o1, o2) % 10))
+        cmds = ["new 0 int", "asm 0 %s" % common.hx(prog), "setoff 0 %d" % o1, "bin 0 %s" % out, "setoff 0 %d" % o2, "sumoff 0", "bin 0 %s" % out, "dump 0 0 %d" % o2]
+        cases.append(cmds)
+        meta.append(("bin2", o2, o1, "bin", out))
     res = common.run_cases(binary, cases, tag="c19")
     stats = {"content_cases": 0, "sizes": len(sizes), "page_multiple_sizes": sum(1 for s in sizes if s and s % PAGE == 0), "empty_files": 0, "badpath_cases": 0, "bin_cases": 0, "guarded_mappings": 0,
              "file_rc0": 0, "file_rc1": 0}
@@ -243,7 +257,7 @@ def run(tier):
         else:
             stats["bin_cases"] += 1
             off = a
-            bidx = 2 if off else 1
+            bidx = 5 if kind == "bin2" else (2 if off else 1)
             s0 = recs[bidx].split()
             brec = recs[bidx + 1].split()
             d = recs[bidx + 2].split()[1]
@@ -260,10 +274,10 @@ def run(tier):
             elif data != d:
                 v.violation(case, "bin-file-content-differs", "file %s bytes vs %d" % (None if data is None else len(data) // 2, off))
             else:
-                v.distinct((kind, off))
+                v.distinct((kind, off, b, os.path.basename(path)))
     v.cov["rule"] = ("file contents of EVERY size 0..64 and every size within +/-16 of 1, 2 and 3 pages x 6 endings (newline, none, inside a comment, inside an instruction, a complete instruction / ret as last line without newline; CRLF lines inside) x both file entry points, plus valid programs with byte-level damage (byte order marks and other prefixes, any byte value 1..255 inserted / replaced at the beginning, the end, line starts or anywhere, odd line separators), "
                      "differentially against the string entry points on the same content (rc, offset, count, FNV of the code); ld --wrap mmap puts a PROT_NONE page right after every non-executable mapping the "
-                     "library creates, so a missing terminator faults deterministically; missing / directory / ENOTDIR paths must fail and leave the instance usable; asm_create_bin_file at offsets 0,1,2,19,4095..4097,6000,20000 must equal [0,offset); sequences of 2-6 file calls of (mostly) decreasing size, ending with an empty file, on ONE instance, each step compared with the string entry point")
+                     "library creates, so a missing terminator faults deterministically; missing / directory / ENOTDIR paths must fail and leave the instance usable; asm_create_bin_file at offsets 0,1,2,19,4095..4097,6000,20000,65535..65537,2^20+5 must equal [0,offset), also onto existing longer / shorter files, through a symlink, and twice to the same path (more code; offset moved back); sequences of 2-6 file calls of (mostly) decreasing size, ending with an empty file, on ONE instance, each step compared with the string entry point")
     v.cov["exhaustive"] = True
     v.cov.update(stats)
     return v.finish(None, stats["content_cases"] > 300 and stats["guarded_mappings"] > 100, "too few file cases / guard never active: %r" % stats)
